@@ -299,7 +299,8 @@ def decide(prop, tier, seed):
             ok = True
             if k.get('replay'):
                 out, err = run_replay(k['replay'])
-                ok = bool(out and out.get('violates'))
+                # a replay process that died (abort, stack overflow) still misbehaves
+                ok = (out is None and err != 'timeout') or bool(out and out.get('violates'))
                 v['known_replay'] = out
             if ok:
                 printed.append('KNOWN-FINDING: property=%s %s' % (prop, k['what']))
